@@ -226,6 +226,49 @@ func init() {
 			return fmt.Errorf("trimNullSuffix not found")
 		}
 		c.defString("trimNullSuffixBody", valSquash(c.src("go/store/val/tuple.go", tn.Body)))
+
+		// ---- what the fixed-access loop of Compare assumes, and who guarantees it:
+		// makeFixedAccess stops at the first nullable or variable-width column; Build refuses a
+		// NULL in a NOT NULL column before delegating to BuildPermissive.
+		tdf := "go/store/val/tuple_descriptor.go"
+		td, err := c.file(tdf)
+		if err != nil {
+			return err
+		}
+		mfa := findFunc(td, "", "makeFixedAccess")
+		if mfa == nil {
+			return fmt.Errorf("makeFixedAccess not found")
+		}
+		var loop string
+		ast.Inspect(mfa.Body, func(n ast.Node) bool {
+			if r, ok := n.(*ast.RangeStmt); ok && loop == "" {
+				loop = valSquash(c.src(tdf, r))
+			}
+			return true
+		})
+		if loop == "" {
+			return fmt.Errorf("makeFixedAccess: range loop not found")
+		}
+		c.defString("makeFixedAccessLoop", loop)
+		tbf := "go/store/val/tuple_builder.go"
+		tbd, err := c.file(tbf)
+		if err != nil {
+			return err
+		}
+		bld := findFunc(tbd, "TupleBuilder", "Build")
+		if bld == nil {
+			return fmt.Errorf("TupleBuilder.Build not found")
+		}
+		c.defString("builderBuildBody", valSquash(c.src(tbf, bld.Body)))
+		cmpFn := findFunc(cmpf, "DefaultTupleComparator", "Compare")
+		if cmpFn == nil || len(cmpFn.Body.List) < 3 {
+			return fmt.Errorf("DefaultTupleComparator.Compare not found")
+		}
+		fl, ok := cmpFn.Body.List[2].(*ast.ForStmt)
+		if !ok {
+			return fmt.Errorf("DefaultTupleComparator.Compare: third statement is not the fixed-access loop")
+		}
+		c.defString("compareFastLoop", valSquash(c.src("go/store/val/tuple_compare.go", fl)))
 		return nil
 	})
 }
